@@ -10,6 +10,15 @@ impl Dispatch {
 }
 '''
 
+REG_HELPER = '''
+#[cfg(kani)]
+impl Registration {
+    /// verification-only: the callsite a registration belongs to (read by the contract stub of `register`)
+    #[doc(hidden)]
+    pub fn __verif_callsite(&self) -> &'static dyn Callsite { self.callsite }
+}
+'''
+
 import os
 HERE = os.path.dirname(os.path.abspath(__file__))
 CO = "tracing-core/src/collect.rs"
@@ -42,13 +51,15 @@ PLAN = dict(
         crate="tracing-core", tls_shim=True, once_cell_stub=True,
         modules=[dict(name="__verif_c01", attach="inline", file="tracing-core/src/callsite.rs", inside_mod="inner",
                       modpath="callsite::inner", files=["../common/core_prelude.rs", "../common/core_stub.rs", "core_cache.kani.rs"])],
-        append=[dict(file="tracing-core/src/dispatch.rs", text=DISPATCH_HELPER, kind="cfg(kani) constructor helper")],
+        append=[dict(file="tracing-core/src/dispatch.rs", text=DISPATCH_HELPER, kind="cfg(kani) constructor helper"),
+                dict(file="tracing-core/src/callsite.rs", text=REG_HELPER, kind="cfg(kani) accessor helper")],
     ), dict(
         crate="tracing", tls_shim_crates=["tracing-core"], once_cell_stub=True, tag="macros", jobs=4, timeout_s=3000,
-        modules=[dict(name="__verif_c01", attach="lib", files=["macro_guard.kani.rs"])],
+        modules=[dict(name="__verif_c01", attach="lib", files=["macro_guard.kani.rs"]),
+                 dict(name="__verif_c01q", attach="lib", files=["macro_guard_inv.kani.rs"])],
     )],
-    manifest=dict(technique='Verus lemmas (fold, invariant preservation, guard exactness) over Kani-discharged contracts of the real registry functions; real macro expansions under Kani in the thorough tier',
-        text='The unbounded part (any number of collectors, any finite history, guard exactness) is proved in Verus from function contracts; those contracts are discharged by Kani on the real code from arbitrary prior cache state, with a stated width bound (3 registrars x 2 callsites) that the fold lemma generalises. The real macros are exercised end to end in the thorough tier.',
+    manifest=dict(technique='Verus lemmas (fold, invariant preservation, guard exactness) over Kani-discharged contracts of the real registry functions; the real macro expansions verified against those contracts (quick) and end to end through the real registry (thorough)',
+        text='The unbounded part (any number of collectors, any finite history, guard exactness) is proved in Verus from function contracts; those contracts are discharged by Kani on the real code from arbitrary prior cache state, with a stated width bound (3 registrars x 2 callsites) that the fold lemma generalises. The real event!/span!/enabled! expansions and MacroCallsite are verified in the quick tier against exactly those contracts (cached interest = fold, published level >= live hints, get_default = current collector) for every state the contracts allow, with a must-fail canary that drops the cache contract; the end-to-end runs through the real registry are the thorough tier.',
         note='Trusted: Kani/CBMC, Verus/Z3, the shims and stubs listed in evidence. Bounded, never counted as proved: registrar-list width 3, callsite-list length 3. Not decided: interleavings (C04), non-default max_level features.',
         design_ref="DESIGN.md section 4, C01"),
 )
